@@ -128,13 +128,17 @@ def canon_write(k, x):
 
 
 def layer(expected, items):
-    """last-writer-wins layering of raw (key, value) items onto a {symbol: value} dict; None entries are 'unset'"""
+    """layer raw (key, value) items onto {symbol: set of admissible values}: a later dict replaces what earlier dicts
+    said about a symbol; None entries are 'unset'; when ONE dict names a symbol twice (alias and symbol, with different
+    meanings) the property does not say which entry wins, so both are admissible"""
+    here = {}
     for k, v in items:
         if v[0] != "num":
             continue
         w = canon_write(k, vreal(v))
         if w is not None:
-            expected[w[0]] = w[1]
+            here.setdefault(w[0], set()).add(w[1] + 0.0)
+    expected.update(here)
     return expected
 
 
@@ -150,11 +154,11 @@ def reads(d):
 
 def check_reads(ctx, key, what, case, got, expected):
     r = reads(got)
-    e = {s: float(expected.get(s, 0.0)) for s in SYMS}
-    if any(not same_num(r[s], e[s]) for s in SYMS):
-        bad = {s: r[s] for s in SYMS if not same_num(r[s], e[s])}
+    e = {s: expected.get(s, {0.0}) for s in SYMS}
+    bad = {s: r[s] for s in SYMS if not any(same_num(r[s], x) for x in e[s])}
+    if bad:
         ctx.pred_fail(key, what, case, observed={"read_by_surface_code": bad, "dict": {k: float(v) for k, v in got.items()}},
-                      required={s: e[s] for s in bad})
+                      required={s: sorted(e[s]) for s in bad})
         return False
     return True
 
@@ -325,12 +329,12 @@ def eval_pphist_case(ctx, drv, case):
             # accepted: every coefficient entry is stored under its symbol, 'defocus' with the sign flipped
             expected = layer({}, flat_items(a))
             got = dict(after["aber"])
-            wrong = {s: got.get(s) for s, x in expected.items() if s not in got or not same_num(got[s], x)}
+            wrong = {s: got.get(s) for s, xs in expected.items() if not any(same_num(got.get(s, 0.0), x) for x in xs)}
             if wrong:
                 key = "defocus-alias-probe_params" if ("C10" in wrong and "defocus" in [k for k, _ in flat_items(a)]) else "pp-accepted-coefs"
                 ctx.pred_fail(key, "probe_params: an accepted assignment did not store its coefficients under their symbols "
                               "('defocus' = d as C10 = -d)", {**case, "history": hist[:i + 1]}, observed=wrong,
-                              required={s: expected[s] for s in wrong})
+                              required={s: sorted(expected[s]) for s in wrong})
         else:
             # rejected: the object is as it was — the reported settings and the stored coefficients still belong together
             if after != before:
@@ -597,7 +601,7 @@ def eval_entry_case(ctx, drv, case):
     alias_form = {k: v for k, v in items}
     canon_form = canon_items(items)
     init_alias = {k: v for k, v in case["init"]}
-    init_exp = canon_items(case["init"])
+    init_exp = layer({}, [[k, ["num", "float", v]] for k, v in case["init"]])
     ctx.count()
     ctx.dist[f"entry:{entry}"] += 1
     small = dict(case)
@@ -607,7 +611,6 @@ def eval_entry_case(ctx, drv, case):
 
     if entry == "init":
         dp = make_dp(case, {**init_alias, **alias_form})
-        exp = {**init_exp, **canon_form} if True else None
         # layering inside ONE dict is by dict order: init entries first, then the items
         exp = layer({}, [[k, ["num", "float", v]] for k, v in {**init_alias, **alias_form}.items()])
         check_reads(ctx, "entry-init-alias", "DirectPtychography(aberration_coefs=…): .aberration_coefs does not denote the given coefficients",
@@ -822,6 +825,8 @@ LITERALS = [
         {"t": "current", "o": [["C10", ["num", "int", 0]]]}, {"t": "current", "o": [["defocus", ["bad", "word"]]]},
         {"t": "search_grid", "opt": [["defocus", -100.0, 100.0, 3]], "fixed": [["astigmatism", F(7)]], "pick": 1, "rot": None},
         {"t": "current", "o": None}]},
+    {"stream": "mergehist", "prior": {"C10": 1.5, "C12": 0.5, "phi12": 0.25, "C30": -0.75, "C50": 0.125}, "d1": {"C10": 0.25, "C12_a": 0.125},
+     "d2": {"C30": 0.5, "C10": -0.125, "C50": 1.0}, "dtype": "float64", "lam": 1.0, "pts": [[0.5, 0.25], [1.0, -2.0], [0.75, 3.0], [0.25, 1.0]]},
 ]
 
 
